@@ -24,5 +24,8 @@ func propC18(c *Ctx, r *Report) {
 	r.floor("arith.roundup", 8)
 	r.Clauses = append(r.Clauses, "determinism (E6): every `range` over a Go map in the DXIL packages is order-insensitive or argued")
 	c.runMapOrder(r, "maporder", "dxil.mapranges", inPkgs("dxil"), mapOrderExceptions)
+	r.Clauses = append(r.Clauses, "binding-array range (E42): both writers of a binding array's register range (PSV0 resource records and dx.resources metadata) dereference the caller's BindingArraySize hint only under a condition that establishes that the IR type declares no size, so the two records of one container agree")
+	c.runArraySizePrecedence(r, "precedence.arraysize", inPkgs("dxil"))
+	r.floor("precedence.arraysize", 2)
 	r.floor("dxil.mapranges", 20)
 }
